@@ -202,16 +202,20 @@ func (dts *DataTypeService) findMetadata(key []byte, dt dataType) (*metadata, er
 	if err == bitcask.ErrKeyNotFound {
 		exist = false
 	} else {
-		// key 存在, 先判断数据类型是否正确, 类型不符时不能继续解码:
-		// String 类型的记录在 type 和 expire 之后是用户数据, 按元数据解码可能得到负的下标导致切片越界
-		if len(metaBuf) == 0 || metaBuf[0] != dt {
+		if len(metaBuf) == 0 {
 			return nil, ErrWrongTypeOperation
 		}
-		// 进行解码
-		meta = decodeMetadata(metaBuf)
-		// 判断是否过期
-		if meta.expire != 0 && meta.expire <= time.Now().UnixNano() {
-			exist = false // 过期仍视为不存在
+		// 所有类型的记录均以 type ‖ expire 开头, 已过期的 key 视为不存在, 与其原类型无关
+		if expire, _ := binary.Varint(metaBuf[1:]); expire != 0 && expire <= time.Now().UnixNano() {
+			exist = false
+		} else {
+			// key 存在, 先判断数据类型是否正确, 类型不符时不能继续解码:
+			// String 类型的记录在 type 和 expire 之后是用户数据, 按元数据解码可能得到负的下标导致切片越界
+			if metaBuf[0] != dt {
+				return nil, ErrWrongTypeOperation
+			}
+			// 进行解码
+			meta = decodeMetadata(metaBuf)
 		}
 	}
 
